@@ -158,6 +158,22 @@ def run_paths(spec):
         if np.abs(dg["dynamical_matrices"][0] - Dg).max() > 1e-11 * sc:
             return Out(ok=False, msg="run_qpoints(nac_q_direction) reports a zone-centre dynamical matrix different from DynamicalMatrixNAC.run(q_direction): "
                        "%.3e" % (np.abs(dg["dynamical_matrices"][0] - Dg).max() / sc))
+        # documented: the direction is used at the zone centre only
+        if np.abs(dg["dynamical_matrices"][1] - Dref[0]).max() > 1e-9 * sc:
+            return Out(ok=False, msg="nac_q_direction changes the dynamical matrix at q=%s away from the zone centre (%s NAC): %.3e"
+                       % (qs[0].tolist(), spec["nac"], np.abs(dg["dynamical_matrices"][1] - Dref[0]).max() / sc))
+        # a band segment passing THROUGH the zone centre approaches it along the segment
+        seg = np.array([qs[0], [0, 0, 0], -qs[0]])
+        ph.run_band_structure([seg], with_eigenvectors=False)
+        fband0 = np.array(ph.get_band_structure_dict()["frequencies"][0][1])
+        for sgn in (1.0, -1.0):
+            dm.run([0, 0, 0], q_direction=sgn * (seg[0] - seg[-1]))
+            lam_dir = np.linalg.eigvalsh(dm.dynamical_matrix)
+            if np.abs(np.sort(_lam(fband0, factor)) - lam_dir).max() <= 1e-9 * lsc:
+                break
+        else:
+            return Out(ok=False, msg="band segment through the zone centre (%s NAC): frequencies at the zone centre are not those of the limit along the segment "
+                       "(deviation %.3e of the eigenvalue scale)" % (spec["nac"], np.abs(np.sort(_lam(fband0, factor)) - lam_dir).max() / lsc))
         v = dg["eigenvectors"][0]
         r = np.abs(dg["dynamical_matrices"][0] @ v - v * _lam(dg["frequencies"][0], factor)).max() / sc
         if r > 1e-9:
